@@ -74,9 +74,30 @@ Record facts := {
                                           structured block -> std::terminate *)
   f_omp_orphans : list (string * Z);   (* (file, line) of every work-sharing construct (`omp for`, sections, single)
                                           that is not lexically inside a parallel region: it binds to the CALLER's team *)
+  f_recursive : list (string * string);   (* (file, function) of every function whose body calls a function of its own
+                                          name (self-recursion, directly or through a child object / an overload) *)
   f_spe_anneal_div_is_bound : bool     (* spe.hpp: the divisor of `lambda = lambda - lambda / X` is the bound of the
                                           main loop `for (i = 0; i < X; ++i)` that contains the statement *)
 }.
+
+(* Self-recursive functions of the source the model was written from.  Recursion DEPTH is what C01's "never terminates
+   the process" needs: each entry is either bounded by a C01 termination theorem or does not grow with N:
+     find_neighbors                  <= log2 N + 1 nested calls (kdouble: c01_kdouble_terminates)
+     vptree buildFromPoints / search depth of a median-split tree, <= log2 N + 1 (c01_vp_build)
+     covertree batch_insert, internal_batch_nearest_neighbor, *_dist, max_scale_of, brute_nearest
+                                     depth = number of scales (c01_ct_descend_terminates, c01_bi_chain_terminates)
+     quadtree insert / computeNonEdgeForces / getDepth / getAllIndices / isCorrect / print
+                                     depth of the tree (c01_qt_depth_terminates; F24's count[] for duplicates)
+     fibonacci_heap cascading_cut    <= rank bound (property C16)
+     distance / kernel / embedRange / begin / capacity / clear / reserve / compute / new_leaf
+                                     forwarding to a member or an overload of the same name: depth 1
+   A function that is not in this list (e.g. a depth-first search written recursively: depth ~ N) re-opens
+   `facts_agree`. *)
+Definition rec_allowed : list (string * string) :=
+  [("callbacks/virtual_callbacks.hpp"%string, "distance"%string); ("callbacks/virtual_callbacks.hpp"%string, "kernel"%string); ("chain_interface.hpp"%string, "embedRange"%string); ("external/barnes_hut_sne/quadtree.hpp"%string, "computeNonEdgeForces"%string); ("external/barnes_hut_sne/quadtree.hpp"%string, "getAllIndices"%string); ("external/barnes_hut_sne/quadtree.hpp"%string, "getDepth"%string); ("external/barnes_hut_sne/quadtree.hpp"%string, "insert"%string); ("external/barnes_hut_sne/quadtree.hpp"%string, "isCorrect"%string); ("external/barnes_hut_sne/quadtree.hpp"%string, "print"%string); ("external/barnes_hut_sne/vptree.hpp"%string, "buildFromPoints"%string); ("external/barnes_hut_sne/vptree.hpp"%string, "search"%string); ("neighbors/covertree.hpp"%string, "batch_insert"%string); ("neighbors/covertree.hpp"%string, "breadth_dist"%string); ("neighbors/covertree.hpp"%string, "brute_nearest"%string); ("neighbors/covertree.hpp"%string, "depth_dist"%string); ("neighbors/covertree.hpp"%string, "height_dist"%string); ("neighbors/covertree.hpp"%string, "internal_batch_nearest_neighbor"%string); ("neighbors/covertree.hpp"%string, "max_scale_of"%string); ("neighbors/covertree/structures.hpp"%string, "new_leaf"%string); ("neighbors/covertree_point.hpp"%string, "begin"%string); ("neighbors/neighbors.hpp"%string, "distance"%string); ("neighbors/neighbors.hpp"%string, "find_neighbors"%string); ("neighbors/vptree.hpp"%string, "buildFromPoints"%string); ("neighbors/vptree.hpp"%string, "search"%string); ("utils/arpack_wrapper.hpp"%string, "compute"%string); ("utils/fibonacci_heap.hpp"%string, "cascading_cut"%string); ("utils/reservable_priority_queue.hpp"%string, "capacity"%string); ("utils/reservable_priority_queue.hpp"%string, "clear"%string); ("utils/reservable_priority_queue.hpp"%string, "reserve"%string)].
+
+Definition pair_eqb (a b : string * string) : bool := String.eqb (fst a) (fst b) && String.eqb (snd a) (snd b).
+Definition rec_ok (l : list (string * string)) : bool := forallb (fun x => existsb (pair_eqb x) rec_allowed) l.
 
 (* the expressions Shapes_Model.v was written from (/repo HEAD f79b9b7) *)
 Definition ref_facts : facts :=
@@ -101,6 +122,7 @@ Definition ref_facts : facts :=
      f_tsne_curp := XSub (XV VN) (XC 1);
      f_omp_throws := [];
      f_omp_orphans := [];
+     f_recursive := rec_allowed;
      f_spe_anneal_div_is_bound := true |}.
 
 Definition nonneg (E : senv) : Prop :=
@@ -163,6 +185,7 @@ Definition facts_agree (F : facts) : Prop :=
   f_tsne_kfactor F = 3 /\                                                                  (* c_K, [325] *)
   f_omp_throws F = [] /\                                                                   (* region_run *)
   f_omp_orphans F = [] /\                                                                  (* ws_done *)
+  rec_ok (f_recursive F) = true /\                                                         (* depth bounds above *)
   f_spe_anneal_div_is_bound F = true.                                                      (* spe_lambda_final *)
 
 (* executable point-wise comparison of two tables *)
@@ -189,6 +212,7 @@ Definition facts_differ_at (F G : facts) (E : senv) : bool :=
     (f_tsne_kfactor F =? f_tsne_kfactor G) &&
     Bool.eqb (is_nil (f_omp_throws F)) (is_nil (f_omp_throws G)) &&
     Bool.eqb (is_nil (f_omp_orphans F)) (is_nil (f_omp_orphans G)) &&
+    Bool.eqb (rec_ok (f_recursive F)) (rec_ok (f_recursive G)) &&
     Bool.eqb (f_spe_anneal_div_is_bound F) (f_spe_anneal_div_is_bound G)).
 
 (* the sizes of a request, with the loop variables at both ends of their ranges *)
